@@ -146,7 +146,12 @@ fn run(ctx: &Ctx) {
             return;
         }
     }
-    ctx.run_prop("all_features", RULE, ctx.cases(400, 80_000), common::s_all, check);
+    if !ctx.run_prop("all_features", RULE, ctx.cases(400, 80_000), common::s_all, check) {
+        return;
+    }
+    if ctx.tier == crate::runner::Tier::Thorough {
+        ctx.run_fuzz("libfuzzer_ledger", "ledger", (30_000.0 * ctx.scale) as u64, 1200, "coverage-guided libFuzzer campaign: bytes decoded into a ledger recipe (structure-aware), the proptest oracles of C01/C02/C03/C05 inside the target; evaluations = executions, distinct_nontrivial = distinct corpus entries (inputs that reached new coverage)");
+    }
 }
 
 fn replay(name: &str, case: &Value) -> Option<Verdict> {
